@@ -561,6 +561,7 @@ func (x *Exec) run() {
 	for _, o := range outs {
 		x.finish(o, nil)
 	}
+	x.checkFrame()
 	x.replay = x.buildReplayInfo()
 	if x.nReturns == 0 && len(x.errs) == 0 {
 		x.fail(u.Decl.Pos(), "no return state reached")
